@@ -881,23 +881,26 @@ def scanBracket (fn : Bool) (s : Str) : BScan :=
 
 /-- The extent of a pattern-list, from just after `op(`: the texts of the alternatives and the
     rest after the closing parenthesis.  As in bash, every unescaped parenthesis outside a
-    bracket expression nests, and `|` separates alternatives only at the outer level. -/
-def scanGroup (fn : Bool) : Nat → Nat → Str → List Str → Str → Option (List Str × Str)
-  | 0, _, _, _, _ => none
-  | _ + 1, _, _, _, [] => none
+    bracket expression nests, `|` separates alternatives only at the outer level, and a bracket
+    expression is skipped as a unit (a malformed one makes the pattern malformed).
+    `.ok none`: there is no closing parenthesis. -/
+def scanGroup (fn : Bool) : Nat → Nat → Str → List Str → Str → Except Err (Option (List Str × Str))
+  | 0, _, _, _, _ => .ok none
+  | _ + 1, _, _, _, [] => .ok none
   | fuel + 1, depth, cur, alts, c :: rest =>
     if c = cBS then
       match rest with
-      | [] => none
+      | [] => .ok none
       | d :: rest' => scanGroup fn fuel depth (cur ++ [c, d]) alts rest'
     else if c = cLB then
       match scanBracket fn rest with
       | .ok _ _ rest' =>
         scanGroup fn fuel depth (cur ++ c :: rest.take (rest.length - rest'.length)) alts rest'
-      | _ => scanGroup fn fuel depth (cur ++ [c]) alts rest
+      | .malformed e => .error e
+      | .notBracket => scanGroup fn fuel depth (cur ++ [c]) alts rest
     else if c = cLP then scanGroup fn fuel (depth + 1) (cur ++ [c]) alts rest
     else if c = cRP then
-      if depth = 0 then some (alts ++ [cur], rest)
+      if depth = 0 then .ok (some (alts ++ [cur], rest))
       else scanGroup fn fuel (depth - 1) (cur ++ [c]) alts rest
     else if c = cBar ∧ depth = 0 then scanGroup fn fuel 0 [] (alts ++ [cur]) rest
     else scanGroup fn fuel depth (cur ++ [c]) alts rest
@@ -938,8 +941,9 @@ def parseSeq (m : Mode) : Nat → Rune → Str → Except Err Glob
       | .ok neg items rest' => andThen (.bracket neg items) cRB rest'
     else if m.ext && isExtOp c && rest.head? == some cLP then
       match scanGroup m.filenames (rest.length + 1) 0 [] [] rest.tail with
-      | none => andThen (.lit c) c rest                    -- no closing parenthesis: ordinary characters
-      | some (alts, rest') =>
+      | .error e => .error e
+      | .ok none => andThen (.lit c) c rest                -- no closing parenthesis: ordinary characters
+      | .ok (some (alts, rest')) =>
         match alts.mapM (parseSeq m fuel cLP) with
         | .error e => .error e
         | .ok gs => andThen (.ext c (altGlob gs)) cRP rest'
@@ -1103,8 +1107,9 @@ def supp (m : Mode) (inGroup : Bool) : Nat → Pos → Rune → Str → Bool
       if c = cBang then false
       else
         match scanGroup m.filenames (rest.length + 1) 0 [] [] rest.tail with
-        | none => false
-        | some (alts, rest') =>
+        | .error _ => true                 -- both report the malformed bracket expression
+        | .ok none => false
+        | .ok (some (alts, rest')) =>
           (!dotSens || pos == .mid) &&
           alts.all (fun a => supp m true fuel .mid cLP a) &&
           supp m inGroup fuel (if dotSens then .unknown else .mid) cRP rest'
@@ -1133,7 +1138,7 @@ def supp (m : Mode) (inGroup : Bool) : Nat → Pos → Rune → Str → Bool
          !(m.filenames && (neg || items.any (·.mem cSlash))) &&
          (!dotSens || pos == .mid) && supp m inGroup fuel .mid cRB rest'
        | .notBracket => supp m inGroup fuel .mid cLB rest
-       | .malformed _ => !inGroup)
+       | .malformed _ => true)
     else if inGroup && c == cLP then false
     else supp m inGroup fuel (posAfter c) c rest
 
